@@ -4,6 +4,7 @@ Model: FpVerif/Model/JA4.lean (utls FromRaw as far as JA4 reads it + pkg/ja4). S
 `T` is the truncated hash (first 12 hex digits of SHA-256 in the code): a parameter of every theorem.
 -/
 import FpVerif.Lemmas.JA4
+import FpVerif.Properties.C05
 import FpVerif.Gen.JA4
 set_option linter.unusedSimpArgs false
 namespace Fp.C02
@@ -143,5 +144,17 @@ example (T : Bytes → Bytes) :
   · decide
   · rfl
   · decide
+
+/-- PLUMBING: whatever injector set is configured (default or custom, any order, any outcome of the other injectors)
+and whatever the request, the value computed by the `X-JA4-Fingerprint` injector is what the backend receives under that
+name, exactly once (corollary of `Fp.C05.delivered` on the model of `rewriteFunc`, which the `rw` stream ties to the code). -/
+theorem header_delivered (c : Proxy.Cfg) (i : Proxy.InReq) (j : Proxy.Inj) (hj : j ∈ c.injectors)
+    (hn : j.name = strBytes "X-JA4-Fingerprint")
+    (howns : ∀ j' ∈ c.injectors, Proxy.canonKey j'.name = Proxy.canonKey j.name → j'.out = j.out)
+    (v : Bytes) (hv : j.out = .value v) (hne : v.isEmpty = false) :
+    Proxy.get (Proxy.rewrite c i).hdr (strBytes "X-Ja4-Fingerprint") = [v] := by
+  have hk : Proxy.canonKey j.name = strBytes "X-Ja4-Fingerprint" := by rw [hn]; decide
+  have := Fp.C05.delivered c i j hj (by rw [hk]; decide) howns v hv hne
+  rwa [hk] at this
 
 end Fp.C02
